@@ -180,7 +180,8 @@ def denote(e):
 def render_wf(rng, e):
     "a well-formed rendering with random layout: line breaks, nested /* */ and # comments, option placement, -n vs [withdrawn]"
     def sep():
-        return rng.choice([' ', ' ', '\n', '  ', '\t', ' /* c */ ', ' /* a /* nested 0 */ "q */ ', '\n# 1 2 0 comment\n', '\n'])
+        return rng.choice([' ', ' ', '\n', '  ', '\t', ' /* c */ ', ' /* a /* nested 0 */ "q */ ', '\n# 1 2 0 comment\n', '\n',
+                           ' /* ward 7, batch #1 of 2 */ ', ' /* # */ ', ' /* [tie 1 2] (id) -3 */ ', '\n# "x /* y\n'])
 
     def ref(c):
         if e['nicks'] and rng.random() < 0.6:
